@@ -2237,6 +2237,11 @@ impl Kanata {
                 .prev_keys
                 .iter()
                 .all(|pk| self.layout.b().keycodes().any(|kc| kc == *pk))
+            // With override-release-on-activation the overridden key is dropped by the tick that
+            // activates the override: the following tick still has to release the override's outputs
+            // and to press the still-held modifiers again.
+            && !(self.override_release_on_activation
+                && self.override_states.removed_oscs().next().is_some())
             && self.move_mouse_state_horizontal.is_none()
             && self.dynamic_macro_replay_state.is_none()
             // The delays of a recording are counted in ticks.
